@@ -250,6 +250,9 @@ func parseCryptoFunction(raw, crypto string) (SuiteConfig, error) {
 		return SuiteConfig{}, fmt.Errorf("unsupported hash %q", hashPart)
 	}
 
+	if !isDecimal(digPart) {
+		return SuiteConfig{}, fmt.Errorf("invalid digit spec %q", digPart)
+	}
 	dig, err := strconv.Atoi(digPart)
 	if err != nil {
 		return SuiteConfig{}, fmt.Errorf("invalid digit spec %q", digPart)
@@ -312,6 +315,9 @@ func parseDataInputTokens(cfg *SuiteConfig, input string) error {
 			}
 			cfg.TimeStep = secs
 		case strings.HasPrefix(tokU, "S"): // session data e.g. "S064"?
+			if len(tokU) != 1 && !(len(tokU) == 4 && isDecimal(tokU[1:])) {
+				return fmt.Errorf("invalid session spec %q", tok)
+			}
 			cfg.IncludeSession = true
 			// parse length if needed
 		default:
@@ -322,6 +328,19 @@ func parseDataInputTokens(cfg *SuiteConfig, input string) error {
 	return nil
 }
 
+// isDecimal reports whether s is a non-empty string of ASCII digits (no sign).
+func isDecimal(s string) bool {
+	if s == "" {
+		return false
+	}
+	for i := 0; i < len(s); i++ {
+		if s[i] < '0' || s[i] > '9' {
+			return false
+		}
+	}
+	return true
+}
+
 // parseTimeGranularity is an example that converts e.g. "1M" => 60, "2H" => 7200, "30S" => 30
 func parseTimeGranularity(g string) (int, error) {
 	if len(g) < 2 {
@@ -329,6 +348,9 @@ func parseTimeGranularity(g string) (int, error) {
 	}
 	numStr := g[:len(g)-1]
 	unit := g[len(g)-1]
+	if !isDecimal(numStr) {
+		return 0, fmt.Errorf("invalid time value %q", numStr)
+	}
 	val, err := strconv.Atoi(numStr)
 	if err != nil {
 		return 0, err
